@@ -15,6 +15,10 @@ import CalVerif.Spec.NumFmt
                                    lo ≤ i < hi of length `len` over the 20-symbol alphabet (i written base 20, most
                                    significant symbol first)
     sweepcodes <lo> <hi>         → FNV-64 over the result letters of `builtinByCode` for lo ≤ n < hi
+    styles <xlsx|xlsb|xls> <defs> <xfs>
+                                 → one result letter per XF (`Formats.xlsxStyles/xlsbStyles/xlsStyles`), or `panic`;
+                                   defs = `id:hexfmt,…` (or `-`), xfs = `id,…` (or `-`); for xlsx the ids are sent to
+                                   the model as their decimal text, as the reader sees them
     sweepids <prefix hex> <suffix hex> <lo> <hi>
                                  → FNV-64 over the result letters of `builtinById (prefix ++ decimal n ++ suffix)` -/
 
@@ -125,6 +129,26 @@ def parseFmt (s : String) : Option NumFmt.Fmt :=
   | some (first :: rest) => some { first := first, rest := rest }
   | _ => none
 
+def parseDefs (s : String) : Option (List (Nat × List Char)) :=
+  if s == "-" then some [] else
+  (s.splitOn ",").mapM fun d =>
+    match d.splitOn ":" with
+    | [id, h] => do
+      let n ← id.toNat?
+      let cs ← charsOfHex h
+      pure (n, cs)
+    | _ => none
+
+def parseXfs (s : String) : Option (List Nat) :=
+  if s == "-" then some [] else (s.splitOn ",").mapM String.toNat?
+
+def stylesReply (r : Res (List CellFormat)) : String :=
+  match r with
+  | .ok fs => if fs.isEmpty then "-" else String.ofList (fs.map fun f => Char.ofNat (letter f).toNat)
+  | .err e => "err:" ++ e
+  | .panic _ => "panic"
+  | .outOfFuel => "fuel"
+
 def handle (line : String) : String :=
   match Wire.words line with
   | ["detect", h] => match charsOfHex h with
@@ -153,6 +177,14 @@ def handle (line : String) : String :=
   | ["gram"] =>
     let f : NumFmt.Fmt := { first := [], rest := [] }
     s!"- {(NumFmt.classify f).tag} {b01 (decide (NumFmt.WF f))} {resTag (detect [])}"
+  | ["styles", kind, defs, xfs] => match parseDefs defs, parseXfs xfs with
+    | some defs, some xfs =>
+      if kind == "xlsx" then
+        stylesReply (xlsxStyles (defs.map fun d => (NumFmt.decimal d.1, d.2)) (xfs.map fun x => some (NumFmt.decimal x)))
+      else if kind == "xlsb" then stylesReply (xlsbStyles defs xfs)
+      else if kind == "xls" then stylesReply (xlsStyles defs xfs)
+      else "bad-op"
+    | _, _ => "bad-op"
   | ["sweep", len, lo, hi] => match len.toNat?, lo.toNat?, hi.toNat? with
     | some len, some lo, some hi => hex64 (sweep len lo hi)
     | _, _, _ => "bad-op"
